@@ -709,6 +709,19 @@ func scanPanicObligations(w *World, r *Report, rule string, cone map[*types.Func
 			}
 			es := normExpr(expr)
 			c := name + ": " + es
+			// the compiler's own bounds-check elimination
+			switch x := expr.(type) {
+			case *ast.IndexExpr:
+				if w.InBoundsProven(x.Lbrack) {
+					r.OK(rule, c, expr.Pos(), kind+": in bounds on every path (bounds check eliminated by the compiler's prove pass)")
+					return true
+				}
+			case *ast.SliceExpr:
+				if w.InBoundsProven(x.Lbrack) {
+					r.OK(rule, c, expr.Pos(), kind+": in bounds on every path (bounds check eliminated by the compiler's prove pass)")
+					return true
+				}
+			}
 			// range-loop index pattern
 			if kind == "index" && rangeIndexSafe(p, fd, expr.(*ast.IndexExpr)) {
 				r.OK(rule, c, expr.Pos(), kind+": index is the key of a range over the same slice")
